@@ -535,6 +535,12 @@ def _for_with_invariant(ex, s, st, dom, spec, ordn):
 
     def inv_terms(state, idx):
         env = dict(state.env)
+        for n_, ty_ in (spec.get("locals") or {}).items():
+            if n_ in env:
+                try:
+                    env[n_] = T.coerce(env[n_], ty_)
+                except T.TypeErr:
+                    pass
         env[ivar] = T.mk_int(idx)
         env["_n"] = T.mk_int(dom.n)
         if dom.seq is not None:
@@ -588,6 +594,12 @@ def exec_while(ex, s: ast.While, st):
 
     def inv_terms(state, k):
         env = dict(state.env)
+        for n_, ty_ in (spec.get("locals") or {}).items():
+            if n_ in env:
+                try:
+                    env[n_] = T.coerce(env[n_], ty_)      # e.g. a None literal seen as Opt[Int]
+                except T.TypeErr:
+                    pass
         env["_k"] = T.mk_int(k)          # ghost: number of completed iterations
         return [(lab, ex.spec_bool(state, src, env, old_state=ex.entry_state)) for lab, src in invs]
 
